@@ -48,7 +48,7 @@ KINDS = ["match_result", "match_null", "match_error", "match_scalar", "same_id_r
          "same_id_request_params", "other_response", "other_request", "notification",
          "progress", "batch_with_match", "other_error", "int_twin", "match_result2",
          "batch_of_one_match", "batch_of_one_error", "batch_empty",
-         "match_empty_obj", "match_empty_list", "match_zero", "match_false", "match_empty_str"]
+         "match_empty_obj", "match_empty_list", "match_zero", "match_false", "match_empty_str", "progress_own"]
 
 
 # ids of distractor responses are drawn from the ids that other calls of the same process use as their own
@@ -85,7 +85,7 @@ def _wire(kind: str, rid: Any, n: int) -> Any:
         return {"jsonrpc": "2.0", "id": other, "method": "ping"}
     if kind == "notification":
         return {"jsonrpc": "2.0", "method": "notifications/message", "params": {"level": "info", "data": n}}
-    if kind == "progress":
+    if kind in ("progress", "progress_own"):
         return {"jsonrpc": "2.0", "method": "notifications/progress",
                 "params": {"progressToken": "tok", "progress": n, "total": 10}}
     if kind == "batch_with_match":
@@ -141,6 +141,10 @@ async def _drive(case: Dict[str, Any], call) -> Dict[str, Any]:
                 await vsleep_until(t)
             n += 1
             wire = _wire(kind, rid, n)
+            if kind == "progress_own":
+                # a progress update for *this* request (the token the call put into its _meta, if it asked for progress)
+                meta = (getattr(first, "params", None) or {}).get("_meta") or {}
+                wire["params"]["progressToken"] = meta.get("progressToken", "no-token-requested")
             try:
                 obj = _build(wire, case.get("build", "parse"))
             except Exception as e:  # the library cannot even represent it
@@ -428,6 +432,15 @@ def gen_cases(ctx):
                 yield {"mid": None, "params": None, "build": "parse", "arrivals": [[t, kind]], "opts": optset}
                 yield {"mid": "123", "params": {"a": 1}, "build": "validate", "opts": optset,
                        "arrivals": [[t, kind], [round(t + 0.3, 3), "match_result2"]]}
+    # 1d. progress for the request itself keeps arriving, the response comes after the deadline (or never): the deadline
+    #     is the deadline
+    for T in (1.0, 2.0):
+        for late in (None, T + 0.4):
+            arr = [[round(0.3 * k, 3), "progress_own"] for k in range(1, int(T / 0.3) + 3)]
+            if late:
+                arr.append([late, "match_result"])
+            yield {"mid": None, "params": {"a": 1}, "build": "parse", "timeout": T, "opts": ["progress_cb"],
+                   "arrivals": sorted(arr, key=lambda a: a[0])}
     # 2. all ordered pairs of kinds on coarse slots (t1<=t2)
     for k1, k2 in itertools.product(KINDS, repeat=2):
         for i, t1 in enumerate(coarse):
@@ -829,7 +842,14 @@ def exec_stream_fault(ctx, case: Dict[str, Any]) -> None:
     async def main():
         pipe = Pipe()
         loop = asyncio.get_running_loop()
-        write = FaultySend(pipe.write, 1, fault.split(":")[1]) if fault.startswith("write:") else pipe.write
+        if fault == "write:blocks":
+            # a write stream nobody drains (the transport's writer is stuck): writing the request never completes
+            import anyio as _anyio
+            blocked_send, _keep = _anyio.create_memory_object_stream(0)
+            pipe._keep = _keep
+            write = blocked_send
+        else:
+            write = FaultySend(pipe.write, 1, fault.split(":")[1]) if fault.startswith("write:") else pipe.write
 
         async def server():
             try:
@@ -882,7 +902,7 @@ def stdio_histories(ctx):
 
 
 def run(ctx):
-    for fault in ("write:broken", "write:closed", "write:oserror", "read:end", "read:end_after_distractor"):
+    for fault in ("write:broken", "write:closed", "write:oserror", "read:end", "read:end_after_distractor", "write:blocks"):
         for t in (0.0, 0.3, 0.5, TIMEOUT - 0.01):
             case = {"via": "stream_fault", "fault": fault, "t": t}
             if ctx.mine():
